@@ -298,7 +298,11 @@ func verifH_C04_rules2() {
 		sv.Variables = map[string]*ServerVariable{"a": {Default: "x", Enum: []string{"x", "y"}, Extensions: ext}, "b": {Default: "v1"}}
 		sv.Extensions = ext
 		check()
-		switch verifChoose("how", 7) {
+		switch verifChoose("how", 9) {
+		case 7: // blanks inside the braces name another variable
+			sv.URL = "https://{ a }.example/{b}"
+		case 8:
+			sv.URL = "https://{a}.example/{b }"
 		case 0:
 			sv.URL = "https://{a}.example/{b"
 		case 1:
